@@ -147,6 +147,25 @@ def enumerate_faults(ws, rng):
                     F("moddata_len", m["type"] + "_longer", [ci, si, mi], [["set", base, m["data"] + [0.7]]])
                     if nb[ci] > 1:
                         F("moddata_len", m["type"] + "_shorter", [ci, si, mi], [["set", base, m["data"][:-1]]])
+    # compensating pairs: the same histosys on the same sample name in two channels, one too long, one too short
+    # (a pair of moddata_len faults whose total length is right)
+    for ci, c in enumerate(chans):
+        for cj, c2 in enumerate(chans):
+            if ci == cj or nb[cj] < 2:
+                continue
+            for si, s in enumerate(c["samples"]):
+                for sj, s2 in enumerate(c2["samples"]):
+                    if s["name"] != s2["name"]:
+                        continue
+                    for mi, m in enumerate(s["modifiers"]):
+                        for mj, m2 in enumerate(s2["modifiers"]):
+                            if m["type"] == "histosys" and m2["type"] == "histosys" and m["name"] == m2["name"]:
+                                b1 = ["channels", ci, "samples", si, "modifiers", mi, "data"]
+                                b2 = ["channels", cj, "samples", sj, "modifiers", mj, "data"]
+                                F("pair", "moddata_len+moddata_len", [[ci, si, mi], [cj, sj, mj]],
+                                  [["set", b1 + ["hi_data"], m["data"]["hi_data"] + [2.5]], ["set", b1 + ["lo_data"], m["data"]["lo_data"] + [1.5]],
+                                   ["set", b2 + ["hi_data"], m2["data"]["hi_data"][:-1]], ["set", b2 + ["lo_data"], m2["data"]["lo_data"][:-1]]])
+                                out[-1]["parts"] = [{"cls": "moddata_len", "variant": "histosys_both_longer"}, {"cls": "moddata_len", "variant": "histosys_both_shorter"}]
     # binwise_shared: one bin-wise name on places with different bin counts
     for ci, c in enumerate(chans):
         for cj, c2 in enumerate(chans):
